@@ -9,15 +9,29 @@
 (* are those of the pinned code (one domain request per call, plus one per account on the          *)
 (* per-account path of SignBeaconAttestations); the driver does not depend on that: a DomainResp   *)
 (* for a request that is not parked is skipped, requests still parked at the end are released.     *)
+(* SIGNING PHASE.  A signer call is a second place where a request waits on the outside world (a   *)
+(* remote / threshold signer): with the gate mode of a request containing "s" its signer calls are *)
+(* held too - the request is parked inside the account wrapper after the wrapper has logged what   *)
+(* it was handed, until the schedule says SignResp(r) (= SignEnd) - so that other requests start,  *)
+(* are split, sign and return while the first one is between two of its signer calls or inside     *)
+(* one.  The signer calls of the pinned code are SignerCalls: one per account for accounts that     *)
+(* are not multi-signers (a loop of Sign calls, ordinary accounts first), one per group for the     *)
+(* multi-signers.  Gate mode "d": only the domain provider holds the request (the histories around  *)
+(* the domain lookup), "s": only the signer, "ds": both, "none": neither.                          *)
 (* `kind` stages the choice: first "start a request" or "release a reply", then the operation,     *)
 (* then the rest of the request - so that simulation (uniform over successors) neither drowns the   *)
 (* few DomainResp successors in the many Calls nor the single-account operations in the batches.   *)
 EXTENDS Signer, Json
 
-CONSTANTS HistOps, HistKinds, HistFails
+CONSTANTS HistOps, HistKinds, HistFails,
+          GateModes        \* subset of {"d", "s", "ds", "none"}: where a request can be held by the schedule
 
-VARIABLES hist, kind
-svars == <<vars, hist, kind>>
+VARIABLES hist, kind,
+          gate             \* per request: its gate mode
+svars == <<vars, hist, kind, gate>>
+
+DGate(m) == m \in {"d", "ds"}
+SGate(m) == m \in {"s", "ds"}
 
 \* the requests of Calls with operation o, kinds from HistKinds and failure mode from HistFails
 HistBatches(n) == UNION {SeqsUpTo(FamilyKinds(f) \cap HistKinds, n) : f \in {"dirk", "wallet"}}
@@ -29,8 +43,10 @@ HistCallsOf(o) ==
             fail : HistFails, failidx : 0..MaxBatch] : ValidCall(c)}
 HistCalls == [o \in HistOps |-> HistCallsOf(o)]
 
-CallJson(r, c) ==
+CallJson(r, c, m) ==
                [ev      |-> "Call",
+                dgate   |-> DGate(m),
+                sgate   |-> SGate(m),
                 rid     |-> r,
                 op      |-> c.op,
                 slot    |-> c.slot,
@@ -43,54 +59,76 @@ CallJson(r, c) ==
                 perindex |-> SigSpec[c.op].msg \in PerIndexMsg,
                 verkeys |-> [i \in 1..Len(c.kinds) |-> VerKey(c.kinds[i])]]
 
-SInit == Init /\ hist = <<[ev |-> "Reset", fork |-> fork]>> /\ kind = "pick"
+SInit == /\ Init /\ hist = <<[ev |-> "Reset", fork |-> fork]>> /\ kind = "pick"
+         /\ gate = [r \in Rids |-> "none"]
 
-Runnable(r) == pc[r] \in {"called", "sign", "failed"}
+Runnable(r) == \/ pc[r] \in {"called", "sign", "failed"}
+               \/ pc[r] = "waiting" /\ ~DGate(gate[r])
+               \/ pc[r] = "insign" /\ ~SGate(gate[r])
 Busy == \E r \in Rids : Runnable(r)
 CanCall == \E r \in Rids : pc[r] = "idle"
-CanResp == \E r \in Rids : pc[r] = "waiting"
+CanResp == \E r \in Rids : pc[r] = "waiting" /\ DGate(gate[r])
+CanSign == \E r \in Rids : pc[r] = "insign" /\ SGate(gate[r])
 
 \* the per-account path: SignBeaconAttestations for accounts that are not multi-signers calls
 \* SignBeaconAttestation per account, which asks for the domain again
 PerAccount(c) == c.op = "attestations" /\ ~IsProtecting(c.kinds[1])
 SplitOrder(c) == OrdIdx(c.kinds) \o DistIdx(c.kinds)
 
-\* the sequential code of request r up to its next provider call or its return
+\* the signer calls the pinned code makes for request c, in order (as sequences of positions)
+Singletons(idx) == [j \in 1..Len(idx) |-> <<idx[j]>>]
+SignerCalls(c) == IF IsProtecting(c.kinds[1])
+                  THEN SelectSeq(Groups(c.kinds), LAMBDA g : Len(g) >= 1)     \* multi-signer: one call per group
+                  ELSE Singletons(SplitOrder(c))                               \* a loop of Sign calls
+NextSignerCall(r) ==
+    LET cs == SignerCalls(req[r])
+        open(j) == ~(Range(cs[j]) \subseteq DOMAIN signed[r])
+    IN cs[CHOOSE j \in 1..Len(cs) : open(j) /\ \A h \in 1..(j - 1) : ~open(h)]
+
+\* the sequential code of request r up to the next point where the schedule holds it, or its return
 Internal(r) ==
     CASE pc[r] = "called" -> FetchDomain(r)
+      [] pc[r] = "waiting" -> DomainResp(r)         \* not held at the provider: the reply comes at once
+      [] pc[r] = "insign" -> SignEnd(r)             \* not held at the signer
       [] pc[r] = "failed" -> ReturnErr(r)
       [] pc[r] = "sign" ->
            LET k == Cardinality(DOMAIN signed[r]) IN
            IF req[r].fail = "signer" THEN SignerFails(r)
            ELSE IF k = Len(req[r].kinds) THEN Return(r)
-           ELSE IF PerAccount(req[r])
-                THEN IF Len(domreqs[r]) < k + 2 THEN RefetchDomain(r)
-                     ELSE SignSome(r, <<SplitOrder(req[r])[k + 1]>>)
-                ELSE \E g \in {1, 2} : /\ \A h \in 1..(g - 1) : Range(Groups(req[r].kinds)[h]) \subseteq DOMAIN signed[r]
-                                       /\ ~(Range(Groups(req[r].kinds)[g]) \subseteq DOMAIN signed[r])
-                                       /\ SignGroup(r, g)
+           ELSE IF PerAccount(req[r]) /\ Len(domreqs[r]) < k + 2 THEN RefetchDomain(r)
+           ELSE SignStart(r, NextSignerCall(r))
 
 SNext ==
     \/ /\ Busy
        /\ \E r \in Rids : /\ Runnable(r)
                           /\ \A q \in Rids : q < r => ~Runnable(q)
                           /\ Internal(r)
-       /\ UNCHANGED <<hist, kind>>
+       /\ UNCHANGED <<hist, kind, gate>>
     \/ /\ ~Busy /\ kind = "pick"
-       /\ kind' \in {k \in {"call", "resp"} : (k = "call" /\ CanCall) \/ (k = "resp" /\ CanResp)}
-       /\ UNCHANGED <<vars, hist>>
+       /\ kind' \in {k \in {"call", "resp", "sresp"} : (k = "call" /\ CanCall) \/ (k = "resp" /\ CanResp)
+                                                         \/ (k = "sresp" /\ CanSign)}
+       /\ UNCHANGED <<vars, hist, gate>>
     \/ /\ ~Busy /\ kind = "call"
        /\ kind' \in HistOps
-       /\ UNCHANGED <<vars, hist>>
+       /\ UNCHANGED <<vars, hist, gate>>
     \/ /\ ~Busy /\ kind \in HistOps
-       /\ \E r \in Rids : \E c \in (IF pc[r] = "idle" THEN HistCalls[kind] ELSE {}) :
+       /\ \E r \in Rids : \E c \in (IF pc[r] = "idle" THEN HistCalls[kind] ELSE {}) : \E m \in GateModes :
              /\ Call(r, c)
-             /\ hist' = Append(hist, CallJson(r, c))
+             /\ gate' = [gate EXCEPT ![r] = m]
+             /\ hist' = Append(hist, CallJson(r, c, m))
        /\ kind' = "pick"
     \/ /\ ~Busy /\ kind = "resp"
-       /\ \E r \in Rids : /\ DomainResp(r)
+       /\ \E r \in Rids : /\ DGate(gate[r])
+                          /\ DomainResp(r)
                           /\ hist' = Append(hist, [ev |-> "DomainResp", rid |-> r])
        /\ kind' = "pick"
+       /\ UNCHANGED gate
+    \/ /\ ~Busy /\ kind = "sresp"
+       /\ \E r \in Rids : /\ SGate(gate[r])
+                          /\ SignEnd(r)
+                          /\ hist' = Append(hist, [ev |-> "SignResp", rid |-> r])
+       /\ kind' = "pick"
+       /\ UNCHANGED gate
 
 SSpec == SInit /\ [][SNext]_svars
 
